@@ -521,7 +521,10 @@ func c12BuildRepeat(tier string) core.Source {
 					}
 				}
 			}
-			src = append(src, tm.L("link", "f00-700"), tm.L("d/dangling", "../nowhere"))
+			src = append(src, tm.L("link", "f00-700"), tm.L("d/dangling", "../nowhere"), tm.L("dirlink", "d"),
+				tm.Entry{Path: "fifo", Type: tm.Fifo, Mode: 0o640, Mtime: tm.Past}, tm.Entry{Path: "d/sock", Type: tm.Sock, Mode: 0o750, Mtime: tm.Past},
+				tm.Entry{Path: "chr", Type: tm.Chr, Mode: 0o600, Mtime: tm.Past, Rdev: 0x0103}, tm.Entry{Path: "d/blk", Type: tm.Blk, Mode: 0o660, Mtime: tm.Past, Rdev: 0x0801},
+				tm.D("emptydir", 0o700, tm.Past-7), tm.D("d/ro", 0o555, tm.Past-9), tm.File("d/ro/inside", []byte("in a read-only directory"), 0o444, tm.Past))
 			// prior destination: some files already there (stale), one extraneous
 			dst = tm.Tree{tm.File("f01-700", genData(famHash, 700, 999), 0o600, tm.Past-5), tm.File("extraneous", []byte("x"), 0o644, tm.Past)}
 		} else {
